@@ -220,7 +220,6 @@ func c06Bounds(c *runner.Ctx) {
 	cases := []tc{
 		{"0..U64", true, false}, {"len(0..U64)", true, false}, {"A..U64", true, false}, {"[1, 2, 0..U64]", true, false},
 		{"U64..5", false, true}, {"len(U64..5)", false, true}, {"U64..A", false, true},
-		{"0..AnyF", true, false}, {"AnyF..0", false, true}, {"0..AnyInf", true, false}, {"AnyNegInf..0", true, false}, {"0..AnyNegInf", false, true},
 		{"0..U", true, false}, {"U..3", false, true},
 	}
 	save := vm.MemoryBudget
@@ -233,7 +232,6 @@ func c06Bounds(c *runner.Ctx) {
 			envs.Fill(e, 3, runner.NewRng(5))
 			e.U64, e.U, e.A = 1<<63+5, 1<<63+9, 2
 			env := envs.AsMap(e)
-			env["AnyF"], env["AnyInf"], env["AnyNegInf"] = 1e19, math.Inf(1), math.Inf(-1)
 			p, co := SafeCompile(k.src, expr.Env(env))
 			c.Eval(1)
 			if co.Failed() {
@@ -257,9 +255,49 @@ func c06Bounds(c *runner.Ctx) {
 	}
 }
 
+// c06DynamicBounds: a float beyond the int domain (or NaN) held by a member of
+// interface type, which the checker lets through as a range bound.
+func c06DynamicBounds(c *runner.Ctx) {
+	save := vm.MemoryBudget
+	defer func() { vm.MemoryBudget = save }()
+	for _, budget := range []int{10, defaultBudget} {
+		vm.MemoryBudget = budget
+		for _, v := range []float64{1e19, math.Inf(1), -1e19, math.Inf(-1), math.NaN()} {
+			for _, src := range []string{"0..AnyF", "AnyF..0", "len(A..AnyF)"} {
+				c.Begin(fmt.Sprintf("dynamic bound: %s AnyF=%v budget=%d", src, v, budget))
+				e := envs.New(&envs.Log{})
+				envs.Fill(e, 3, runner.NewRng(5))
+				e.AnyF, e.A = v, 2
+				p, co := SafeCompile(src, expr.Env(envs.Env{}))
+				c.Eval(1)
+				if co.Failed() {
+					c.Count("bound_cases_rejected", 1)
+					continue
+				}
+				o := SafeRun(p, *e)
+				c.Eval(1)
+				c.Count("bound_cases", 1)
+				upper := src != "AnyF..0" // AnyF is the upper bound
+				huge := (v > 0) == upper && !math.IsNaN(v)
+				cas := map[string]interface{}{"source": src, "budget": budget, "AnyF": fmt.Sprint(v), "real": o.String()}
+				budgetErr := o.Err != nil && strings.Contains(o.Err.Error(), "memory budget exceeded")
+				switch {
+				case o.Panic != nil:
+					c.Violate("run-panic", fmt.Sprint(o.Panic), cas)
+				case huge && o.Err == nil:
+					c.Violate("over-budget-run-completed:bound-outside-int", "a range that needs more than 2^63 elements completed: "+o.String(), cas)
+				case !huge && budgetErr:
+					c.Violate("refused-below-budget:bound-outside-int", "a range that creates nothing (its end precedes its start, or a bound is NaN) was refused for budget reasons", cas)
+				}
+			}
+		}
+	}
+}
+
 func c06Case(c *runner.Ctx, idx uint64) {
 	if idx == 0 {
 		c06Bounds(c)
+		c06DynamicBounds(c)
 	}
 	r := c.R
 	g := term.NewGen(r, false)
